@@ -7,6 +7,7 @@ import (
 	"errors"
 	"fmt"
 	"io"
+	"os"
 	"strings"
 	"sync"
 
@@ -55,6 +56,12 @@ func (f *Filer) Create(info types.SegmentInfo) (types.SegmentWriter, error) {
 
 	wf, err := f.vfs.Create(f.dir, fname, uint64(info.SizeLimit))
 	if err != nil {
+		if !errors.Is(err, os.ErrExist) {
+			// A failed Create may still have created the file (e.g. when only its
+			// preallocation failed). It is ours and empty: remove it (best effort),
+			// otherwise the retry, which uses the same name, could never succeed.
+			_ = f.vfs.Delete(f.dir, fname)
+		}
 		return nil, err
 	}
 
